@@ -81,8 +81,25 @@ func genDuo(t *rapid.T) duo.Case {
 		}
 		c.Ops = append(c.Ops, duo.Op{K: "sgate", R: 0}, duo.Op{K: "tick"})
 	}
+	cancelRace := n >= 4 && !resumedThenQueued && len(c.Ops) <= n && rapid.IntRange(0, 4).Draw(t, "cancel-race") == 0
+	if cancelRace {
+		// one worker, held by request 0 inside its block hook at the block at which it then pauses itself;
+		// request 1 waits in the queue; its cancel races the freed worker picking its task up while the loop
+		// is busy with request 2's slow outgoing-request hook
+		k := rapid.IntRange(1, 2).Draw(t, "g0")
+		c.Reqs[0].ReqGateAt, c.Reqs[0].ReqPauseAt, c.Reqs[0].RespPauseAt, c.Reqs[0].RespGateAt = k, k, 0, 0
+		c.Reqs[2].OutHookYield, c.Reqs[3].OutHookYield = true, true
+		c.Ops = []duo.Op{{K: "start", R: 0}}
+		for j := rapid.IntRange(2, 6).Draw(t, "warm"); j > 0; j-- {
+			c.Ops = append(c.Ops, duo.Op{K: "deliver", N: rapid.IntRange(0, 1).Draw(t, "l")})
+		}
+		c.Ops = append(c.Ops, duo.Op{K: "start", R: 1}, duo.Op{K: "qrace", R: 1, N: 0}, duo.Op{K: "tick"})
+	}
 	c.Ops = append(c.Ops, duo.GenOps(t, n, 30, opKinds)...)
 	c.MaxOut = rapid.SampledFrom([]int{0, 1, 1, 2}).Draw(t, "maxout")
+	if cancelRace {
+		c.MaxOut = 1
+	}
 	if resumedThenQueued {
 		c.MaxOut = 1
 	}
